@@ -14,21 +14,21 @@ import (
 
 // KSCase is one application of an evaluation key inside a single ring.
 type KSCase struct {
-	Params  h.RLWESpec `json:"params"`
-	Key     KeySpec    `json:"key"`
-	Op      string     `json:"op"`
-	CtLevel int        `json:"ctLevel"`
-	GalK    int64      `json:"galK"`   // Galois element 5^galK ...
-	GalNeg  bool       `json:"galNeg"` // ... times -1 (standard ring only)
-	InPlace bool       `json:"inPlace"`
-	Dirty   bool       `json:"dirty"` // a non-aliased output ciphertext holds stale data before the call
-	FlipNTT  bool `json:"flipNTT,omitempty"`  // the ciphertext is in the domain opposite to the parameters' NTTFlag (IsNTT set accordingly)
-	OutLevel int  `json:"outLevel,omitempty"` // level at which an out-of-place receiver is allocated (if above the ciphertext level)
-	OutDeg2  bool `json:"outDeg2,omitempty"`  // Relinearize into a receiver of degree 2
-	QPExtra  int  `json:"qpExtra,omitempty"`  // AutomorphismHoistedLazy: receiver with LevelP = key LevelP + qpExtra
-	Twice    bool `json:"twice,omitempty"`    // a second application with the same evaluator, key and receiver
-	Pat     string     `json:"pat"` // coefficient pattern of the key-switched polynomial: uniform | top | low
-	Seed    uint64     `json:"seed"`
+	Params   h.RLWESpec `json:"params"`
+	Key      KeySpec    `json:"key"`
+	Op       string     `json:"op"`
+	CtLevel  int        `json:"ctLevel"`
+	GalK     int64      `json:"galK"`   // Galois element 5^galK ...
+	GalNeg   bool       `json:"galNeg"` // ... times -1 (standard ring only)
+	InPlace  bool       `json:"inPlace"`
+	Dirty    bool       `json:"dirty"`              // a non-aliased output ciphertext holds stale data before the call
+	FlipNTT  bool       `json:"flipNTT,omitempty"`  // the ciphertext is in the domain opposite to the parameters' NTTFlag (IsNTT set accordingly)
+	OutLevel int        `json:"outLevel,omitempty"` // level at which an out-of-place receiver is allocated (if above the ciphertext level)
+	OutDeg2  bool       `json:"outDeg2,omitempty"`  // Relinearize into a receiver of degree 2
+	QPExtra  int        `json:"qpExtra,omitempty"`  // AutomorphismHoistedLazy: receiver with LevelP = key LevelP + qpExtra
+	Twice    bool       `json:"twice,omitempty"`    // a second application with the same evaluator, key and receiver
+	Pat      string     `json:"pat"`                // coefficient pattern of the key-switched polynomial: uniform | top | low
+	Seed     uint64     `json:"seed"`
 }
 
 func (c KSCase) RandSeed() uint64 { return c.Seed }
@@ -43,11 +43,14 @@ func autoOp(op string) bool { return op == "auto" || op == "autoHoisted" || op =
 
 func genKS(t *rapid.T) KSCase {
 	var c KSCase
-	maxLogN := 6
+	minLogN, maxLogN := 4, 6
 	if h.Thorough() {
 		maxLogN = 7
+		if rapid.IntRange(0, 15).Draw(t, "largeN") == 0 { // lattigo's own tests run at N=2^10
+			minLogN, maxLogN = 8, 10
+		}
 	}
-	c.Params = genParams(t, 4, maxLogN, true, nil)
+	c.Params = genParams(t, minLogN, maxLogN, true, nil)
 	c.Op = ksOps[rapid.IntRange(0, len(ksOps)-1).Draw(t, "op")]
 	if hoistedOp(c.Op) && len(c.Params.P) == 0 {
 		// the hoisted methods decompose modulo QP: only defined with an auxiliary modulus (all callers, rlwe_test skips)
@@ -575,7 +578,6 @@ func mulmod64(a, b, m uint64) uint64 {
 	x := new(big.Int).Mul(h.BU(a), h.BU(b))
 	return x.Mod(x, h.BU(m)).Uint64()
 }
-
 
 var propKS = h.NewProp("TestPropKeySwitch", h.Budget{Quick: 600, Thorough: 12000}, genKS, runKS)
 
